@@ -3,9 +3,13 @@
   array whose field types are the channels' cast dtypes, `chunk[name] = data[...]`, numpy "unsafe" casting): between
   the six integer types the library supports a value is reduced modulo 2^bits and read as two's complement.
 
-  (Casts from and to floating point are numpy's / the C compiler's and stay outside the model.)
+  An integer cast to float64 is `float(i)` (`intToF64R`, exact for all the supported integer types); to float32 it is
+  that double rounded to the nearest single (`f64ToF32`) — one rounding, since the first step is exact.
+  (Casts FROM floating point are numpy's / the C compiler's and stay outside the model.)
 -/
 import Dlismodel.Model.Prim
+import Dlismodel.Model.Eflr
+import Dlismodel.Model.Convert
 namespace Dlis
 
 structure IntTy where
@@ -28,5 +32,14 @@ def castInt (t : IntTy) (v : Int) : Int :=
 /-- the bytes of the slot element: the channel's representation code is the one of its cast type -/
 def encInt (t : IntTy) (v : Int) : Except Err Bytes := if t.signed then encS t.bytes v else encU t.bytes v
 def decInt (t : IntTy) (bs : Bytes) : Option (Int × Bytes) := if t.signed then decS t.bytes bs else decU t.bytes bs
+
+/-- `astype(float64)` of an integer: bit pattern of the double -/
+def castIntToF64 (v : Int) : Option Nat := intToF64R v
+
+/-- `astype(float32)` of an integer: bit pattern of the single -/
+def castIntToF32 (v : Int) : Option Nat :=
+  match intToF64R v with
+  | some b => (match f64ToF32 b with | .ok s => some s | .error _ => none)
+  | none => none
 
 end Dlis
